@@ -1,9 +1,192 @@
+import RsMatterVerif.Model.Chunk
 import Driver.Util
-/-! Driver for C14: not built yet. -/
-namespace Driver.C14
+/-! Driver for C14: the chunking model predicts, from the value lengths of a read request and the
+encoding constants measured on the real encoder (case header), the exact chunk layout (which report
+goes into which message, message sizes, MoreChunks flags); the prediction is compared with what the
+real `InteractionModel` sent.  Independently, the specification is evaluated on the implementation's
+own chunks: status ok, every message well-formed and at most the buffer size, MoreChunks on all but
+the last, SuppressResponse only on the last, and the reassembled reports equal the requested values
+(each once, in order, lists complete, contents intact).
 
-def run : IO UInt32 := do
-  IO.eprintln "C14: driver not built yet"
-  return 2
+case header: `case <id> rd <B> <KS> <KW> <KE> <KI>`
+op: `rd <item>…`, item = `s<attr>:<len>` | `l<k>:<len>,<len>…` | `l<k>:-`
+-/
+namespace Driver.C14
+open Chunk
+
+structure Hdr where
+  cap : Nat := 1178
+  ks : Nat := 0
+  kw : Nat := 0
+  ke : Nat := 0
+  ki : Nat := 0
+
+inductive ReqItem
+  | s (attr : Nat) (len : Nat)
+  | l (k : Nat) (lens : List Nat)
+
+def lb (len : Nat) : Nat := if len < 256 then 1 else 2
+
+def firstCh (s : String) : String := String.ofList (s.toList.take 1)
+def restStr (s : String) : String := String.ofList (s.toList.drop 1)
+
+def parseItem (w : String) : Option ReqItem :=
+  match w.splitOn ":" with
+  | [head, val] =>
+    let kind := firstCh head
+    match (restStr head).toNat? with
+    | none => none
+    | some a =>
+      if kind = "s" then (val.toNat?).map (fun len => ReqItem.s (a % 16) len)
+      else if kind = "l" then
+        if val = "-" then some (.l (a % 6) [])
+        else
+          let ls := (val.splitOn ",").map String.toNat?
+          if ls.all Option.isSome then some (.l (a % 6) (ls.filterMap id)) else none
+      else none
+  | _ => none
+
+def cfgOf (h : Hdr) : Cfg :=
+  { cap := h.cap, reserve := Consts.longReadsReserve, structReserve := Consts.longReadsStructReserve,
+    hdr := 1, arrOpen := 2, close := 1, trailerMore := 7, trailerDone := 6 }
+
+def toItem (h : Hdr) : ReqItem → Item
+  | .s a len => .scalar a (h.ks + lb len + len)
+  | .l k lens =>
+    -- the end-of-list probe writes the report header: an element report minus value tag (2) and the two closing bytes
+    .list (100 + k) (h.kw + (lens.map fun l => 1 + lb l + l).sum) h.ke (lens.map fun l => h.ki + lb l + l) (h.ki - 4)
+
+def rPiece : Piece → String
+  | .scalar id sz => s!"S{id}:{sz}"
+  | .wholeList id sz [] => s!"E{id - 100}:{sz}"   -- an empty list read whole looks like the start of a streamed one
+  | .wholeList id sz _ => s!"W{id - 100}:{sz}"
+  | .listStart id sz => s!"E{id - 100}:{sz}"
+  | .listElem id _ sz => s!"I{id - 100}:{sz}"
+
+def rChunk (c : ChunkOut) : String :=
+  s!"{c.size}/{if c.more then 1 else 0}:" ++ (if c.pieces.isEmpty then "-" else ",".intercalate (c.pieces.map rPiece))
+
+/-- a chunk as reported by the harness: `<size>/<more><suppress><wf>/<pieces>` -/
+structure IChunk where
+  size : Nat
+  more : Bool
+  suppress : Bool
+  wf : Bool
+  pieces : List String
+
+def parseIChunk (t : String) : Option IChunk :=
+  match t.splitOn "/" with
+  | [sz, fl, ps] =>
+    match sz.toNat?, fl.toList with
+    | some n, [m, s, w] =>
+      some { size := n, more := m = '1', suppress := s = '1', wf := w = '1',
+             pieces := if ps = "-" then [] else ps.splitOn "," }
+    | _, _ => none
+  | _ => none
+
+/-- kind + attribute + encoded size of a piece (the first two `:` fields) -/
+def pieceKey (p : String) : String :=
+  match p.splitOn ":" with
+  | a :: b :: _ => s!"{a}:{b}"
+  | _ => p
+
+def rIChunk (c : IChunk) : String :=
+  s!"{c.size}/{if c.more then 1 else 0}:" ++ (if c.pieces.isEmpty then "-" else ",".intercalate (c.pieces.map pieceKey))
+
+/-! ## specification on the implementation's chunks -/
+
+/-- reassembled answer: per item its attribute tag and value lengths -/
+inductive Got
+  | s (attr : Nat) (len : Nat)
+  | l (k : Nat) (lens : List Nat)
+deriving DecidableEq
+
+def gotOfReq : ReqItem → Got
+  | .s a len => .s a len
+  | .l k lens => .l k lens
+
+/-- fold the stream of pieces into items; `none` = malformed stream (element without a list start,
+bad content flag, unknown piece) -/
+def reassemble : List String → List Got → Option (List Got)
+  | [], acc => some acc.reverse
+  | p :: ps, acc =>
+    let f := p.splitOn ":"
+    let kind := firstCh (f.getD 0 "")
+    let attr := (restStr (f.getD 0 "")).toNat?
+    match kind, attr with
+    | "S", some a =>
+      match (f.getD 2 "").toNat?, f.getD 3 "" with
+      | some len, "1" => reassemble ps (.s a len :: acc)
+      | _, _ => none
+    | "W", some k =>
+      let lens := ((f.getD 2 "").splitOn "+").map String.toNat?
+      if f.getD 3 "" = "1" && lens.all Option.isSome then reassemble ps (.l k (lens.filterMap id) :: acc) else none
+    | "E", some k => reassemble ps (.l k [] :: acc)
+    | "I", some k =>
+      match acc, (f.getD 2 "").toNat?, f.getD 3 "" with
+      | .l k' lens :: rest, some len, "1" =>
+        if k' = k then reassemble ps (.l k (lens ++ [len]) :: rest) else none
+      | _, _, _ => none
+    | _, _ => none
+
+def fitsReq (h : Hdr) (items : List ReqItem) : Bool :=
+  (items.map (toItem h)).all fun it => it.fits (cfgOf h)
+
+def oracle (h : Hdr) (items : List ReqItem) (status : String) (cs : List IChunk) : Option String :=
+  if !fitsReq h items then none   -- a value that fits no message: nothing is demanded (stated hypothesis `Fits`)
+  else if status ≠ "ok" then some s!"the read was not answered completely: {status}"
+  else if cs.isEmpty then some "no message"
+  else
+    match cs.find? (fun c => !c.wf) with
+    | some c => some s!"a message of {c.size} bytes is not well-formed on its own"
+    | none =>
+    match cs.find? (fun c => decide (c.size > h.cap)) with
+    | some c => some s!"a message of {c.size} bytes exceeds the maximum of {h.cap}"
+    | none =>
+      let front := cs.dropLast
+      let last := cs.getLast?
+      if front.any (fun c => !c.more) then some "a message before the last one ends the interaction (MoreChunks clear)"
+      else if front.any (fun c => c.suppress) then some "SuppressResponse on a message that is not the last"
+      else if (last.map (·.more)).getD true then some "the last message announces more chunks"
+      else
+        match reassemble (cs.flatMap (·.pieces)) [] with
+        | none => some "the reports do not reassemble (element without list start, damaged value or unknown report)"
+        | some got =>
+          if got = items.map gotOfReq then none
+          else some s!"the reassembled answer differs from the requested values ({got.length} items for {items.length} requested)"
+
+structure St where
+  h : Hdr := {}
+
+def step (st : St) (line : String) : St × String :=
+  let (op, out) := splitArrow line
+  match words op with
+  | "case" :: _ :: _ :: b :: ks :: kw :: ke :: ki :: _ =>
+    match b.toNat?, ks.toNat?, kw.toNat?, ke.toNat?, ki.toNat? with
+    | some b, some ks, some kw, some ke, some ki => ({ h := { cap := b, ks := ks, kw := kw, ke := ke, ki := ki } }, "case")
+    | _, _, _, _, _ => (st, "BAD case header (calibration failed?)")
+  | "rd" :: ws =>
+    let parsed := ws.map parseItem
+    if !parsed.all Option.isSome then (st, "BAD item") else
+    let items := parsed.filterMap id
+    let secs := (out.splitOn " | ").map (fun s => s.trimAscii.toString)
+    let status := secs.getD 0 ""
+    let ctext := secs.getD 1 "-"
+    let ichunks := if ctext = "-" then [] else (ctext.splitOn ";").map parseIChunk
+    if !ichunks.all Option.isSome then (st, "BAD chunk") else
+    let cs := ichunks.filterMap id
+    match oracle st.h items status cs with
+    | some why => (st, s!"ORA {why}")
+    | none =>
+      match chunks (cfgOf st.h) (items.map (toItem st.h)) with
+      | .ok ms =>
+        let mtext := ";".intercalate (ms.map rChunk)
+        let itext := ";".intercalate (cs.map rIChunk)
+        if status = "ok" && mtext = itext then (st, "ok") else (st, s!"DIS ok | {mtext}")
+      | .error .loops => if status = "toomany" then (st, "ok") else (st, "DIS loops")
+      | .error .noSpace => if status = "hang" then (st, "ok") else (st, "DIS nospace")
+  | _ => (st, "BAD op")
+
+def run : IO UInt32 := Driver.runLoop ({} : St) step
 
 end Driver.C14
